@@ -1235,8 +1235,22 @@ static void run_block_scenario(vrt_rng *r, int idx, int max_es)
     else
         b->watch[b->nwatch++] = w.pools[victim];
     b->n = 1 + (int)vrt_range(r, BMAXU - 1);
-    VRT_ABT(ABT_mutex_create(&b->cmx));
-    VRT_ABT(ABT_cond_create(&b->cnd));
+    /* In the finalize variant the units use the objects until ABT_finalize
+     * returns, after which nothing can be freed through the API: use statically
+     * initialised mutexes/conds there (and no eventuals). */
+    static ABT_mutex_memory mxmem[BMAXU * BMAXSTEP + 1];
+    static ABT_cond_memory cmem;
+    static const ABT_mutex_memory mxinit = ABT_MUTEX_INITIALIZER;
+    static const ABT_cond_memory cinit = ABT_COND_INITIALIZER;
+    if (variant == 1) {
+        mxmem[BMAXU * BMAXSTEP] = mxinit;
+        cmem = cinit;
+        b->cmx = ABT_MUTEX_MEMORY_GET_HANDLE(&mxmem[BMAXU * BMAXSTEP]);
+        b->cnd = ABT_COND_MEMORY_GET_HANDLE(&cmem);
+    } else {
+        VRT_ABT(ABT_mutex_create(&b->cmx));
+        VRT_ABT(ABT_cond_create(&b->cnd));
+    }
     int nobj = 0;
     for (int i = 0; i < b->n; i++) {
         bunit_t *u = &b->u[i];
@@ -1246,12 +1260,19 @@ static void run_block_scenario(vrt_rng *r, int idx, int max_es)
         for (int s = 0; s < u->nsteps; s++) {
             /* the first step always really blocks */
             int k = 1 + (int)vrt_range(r, s == 0 ? 4 : 5);
+            if (variant == 1 && k == BS_EVENTUAL)
+                k = BS_COND;
             u->step_kind[s] = k;
             u->step_obj[s] = nobj;
             if (k == BS_EVENTUAL)
                 VRT_ABT(ABT_eventual_create(0, &b->ev[nobj]));
             if (k == BS_MUTEX) {
-                VRT_ABT(ABT_mutex_create(&b->mx[nobj]));
+                if (variant == 1) {
+                    mxmem[nobj] = mxinit;
+                    b->mx[nobj] = ABT_MUTEX_MEMORY_GET_HANDLE(&mxmem[nobj]);
+                } else {
+                    VRT_ABT(ABT_mutex_create(&b->mx[nobj]));
+                }
                 /* held by the resumer side from the start (locked here by the
                  * primary ULT; ABT_mutex may be unlocked by another caller) */
                 VRT_ABT(ABT_mutex_lock(b->mx[nobj]));
